@@ -57,12 +57,13 @@ STRUCT_SHAPES = ["bare", "qual", "fmt", "kv", "kv2", "multi", "esc", "kv_short",
                  "target_kv", "target_multi"]
 
 
-def render_stmt(shape, marker, macro, rid, structured, words, indent="    ", ref_last=False):
-    """Render one log statement (with trailing newline). rid: planted ID or None."""
+def render_stmt(shape, marker, macro, rid, structured, words, indent="    ", ref_last=False, module="log", rid_text=None):
+    """Render one log statement (with trailing newline). rid: planted ID or None (rid_text: its spelling, e.g. '0042')."""
     msg = "%s %s" % (marker, words)
     name = macro
     if shape in ("qual", "qual_fmt_multi"):
-        name = "log::" + macro
+        name = module + "::" + macro
+    ridt = rid_text if rid_text is not None else (str(rid) if rid is not None else None)
     args_after = ""
     if shape in ("fmt", "qual_fmt_multi"):
         msg += " {} {:?}"
@@ -90,12 +91,12 @@ def render_stmt(shape, marker, macro, rid, structured, words, indent="    ", ref
     if structured:
         if rid is not None:
             if ref_last and kvs:
-                kvs = "%s, ref = %d" % (kvs, rid)   # an existing ref pair counts anywhere among the key-values
+                kvs = "%s, ref = %s" % (kvs, ridt)   # an existing ref pair counts anywhere among the key-values
             else:
-                kvs = ("ref = %d, %s" % (rid, kvs)) if kvs else ("ref = %d" % rid)
+                kvs = ("ref = %s, %s" % (ridt, kvs)) if kvs else ("ref = %s" % ridt)
     else:
         if rid is not None:
-            msg = "[ref: %d] %s" % (rid, msg)
+            msg = "[ref: %s] %s" % (ridt, msg)
     kvpart = (kvs + "; ") if kvs else ""
     if shape in ("multi", "qual_fmt_multi", "target_multi"):
         body = "%s%s!(\n%s    %s%s\"%s\"%s\n%s);\n" % (indent, name, indent, pre, kvpart, msg, args_after, indent)
@@ -121,6 +122,26 @@ def stmt_id(text):
 
 PAD_LINE = "fn pad_%05d(v: u32) -> u32 { let w = v.wrapping_mul(%d); w ^ 0x5bd1 }\n"
 
+
+# Text that must be inert for the tool.  NOT in this list on purpose: a string literal containing "/*" - the grammar skips
+# comments between any two tokens, so it treats that as the start of a block comment and swallows everything up to the
+# next "*/" (an observation in C11's territory, DESIGN 12.7); planted statements must stay recognisable.
+DECOYS = [
+    '    // info!("commented out {}", 1);\n',
+    '    /* warn!("in a block comment"); */\n',
+    '    /// error!("in a doc comment");\n',
+    '    let _s = "info!(\\"inside a string\\")";\n',
+    '    debug!("unconfigured macro");\n',
+    '    println!("not a log macro {}", count);\n',
+    '    my_info!("configured name as a suffix");\n',
+    '    info_span!("configured name as a prefix");\n',
+    '    other::info!("different module path");\n',
+    '    info!(state);\n',
+    '    warn!(concat!("no ", "literal"));\n',
+    '    error!(r"raw string literal");\n',
+    '    let _t = format!("{} // not a comment", count);\n',
+    '    info ! ("spaced bang");\n',
+]
 
 PAD_UNI = "既定値を返す日本語のコメントéßжΩ𝔘😀ñ"
 
@@ -151,9 +172,10 @@ SIZE_CLASSES = {"tiny": 0, "k8": 9000, "k64": 70000, "k160": 160000, "k256": 270
 class Gen:
     """Seeded generator with a private marker counter (markers are unique per world)."""
 
-    def __init__(self, rng):
+    def __init__(self, rng, macros=None):
         self.rng = rng
         self.n = 0
+        self.macros = macros or DEFAULT_MACROS
 
     def marker(self):
         self.n += 1
@@ -162,13 +184,16 @@ class Gen:
     def stmt(self, structured, rid=None, shapes=None, macros=None):
         rng = self.rng
         shape = rng.choice(shapes or (STRUCT_SHAPES if structured else UNSTRUCT_SHAPES))
-        macro = rng.choice(macros or ["info", "warn", "error"])
+        module, macro = rng.choice(self.macros)
         mk = self.marker()
         words = rng.choice(WORDS)
-        text = render_stmt(shape, mk, macro, rid, structured, words, ref_last=rng.random() < 0.3)
+        rid_text = None
+        if rid is not None and rid < 100000 and rng.random() < 0.06:
+            rid_text = "%06d" % rid   # leading zeros: still the same number
+        text = render_stmt(shape, mk, macro, rid, structured, words, ref_last=rng.random() < 0.3, module=module, rid_text=rid_text)
         return ["stmt", mk, text]
 
-    def source_file(self, structured, nstmts, size_class, ids, shapes=None, crlf=False, unicode_p=0.0):
+    def source_file(self, structured, nstmts, size_class, ids, shapes=None, crlf=False, unicode_p=0.0, decoy_p=0.0):
         """ids: list (len nstmts) of planted IDs or None."""
         rng = self.rng
         total = SIZE_CLASSES[size_class]
@@ -180,6 +205,8 @@ class Gen:
                 # neither missing a reference nor ever modified, so for the model it is inert text
                 head += "    %s!(ref = %s; \"unusable reference decoy\");\n" % (
                     rng.choice(["info", "warn", "log::error"]), rng.choice(["request_id", "\"abc\"", "id.0", "-1"]))
+            if decoy_p and rng.random() < decoy_p:
+                head += "".join(rng.choice(DECOYS) for _ in range(rng.randrange(1, 4)))
             segs.append(["pad", head])
             segs.append(self.stmt(structured, ids[i], shapes))
             segs.append(["pad", "}\n"])
@@ -270,12 +297,19 @@ def gen_ids(rng, n, p_have=0.4, lo=1, hi=60, special=None):
 
 
 def gen_world_model(rng, structured=None, use_cache="rand", nfiles=None, sizes=None, p_have=0.4, id_hi=60,
-                    lock="rand", shapes=None, max_stmts=4, min_missing=1, special_ids=None, crlf_p=0.0, unicode_p=0.0):
+                    lock="rand", shapes=None, max_stmts=4, min_missing=1, special_ids=None, crlf_p=0.0, unicode_p=0.0,
+                    decoy_p=0.25, custom_macros_p=0.15):
     """A project with generated in-scope source files under proj/src (nested sometimes)."""
-    g = Gen(rng)
+    macros = None
+    if rng.random() < custom_macros_p:
+        macros = rng.choice([[("log", "info"), ("log", "warn")], [("mylog", "note"), ("mylog", "alert"), ("log", "error")],
+                             [("tracing", "event")], [("log", "info"), ("log", "infoo"), ("log", "in")]])
+    g = Gen(rng, macros)
     if structured is None:
         structured = rng.random() < 0.4
     cfg = {"source_dir": rng.choice(["./src", "src"]), "structured": structured if (structured or rng.random() < 0.5) else None}
+    if macros:
+        cfg["macros"] = [list(m) for m in macros]
     if use_cache == "rand":
         cfg["use_cache"] = rng.choice([True, None, None, False])
     else:
@@ -307,7 +341,7 @@ def gen_world_model(rng, structured=None, use_cache="rand", nfiles=None, sizes=N
         missing += sum(1 for i in ids if i is None)
         sc = rng.choice(sizes or ["tiny", "tiny", "tiny", "k8", "k64"])
         files["proj/src/" + names[fi]] = g.source_file(structured, ns, sc, ids, shapes, crlf=rng.random() < crlf_p,
-                                                       unicode_p=unicode_p)
+                                                       unicode_p=unicode_p, decoy_p=decoy_p)
     if missing < min_missing:
         # make sure there is work to do
         p = sorted(files)[0]
@@ -431,7 +465,8 @@ def dev_apply(wm, edit, root=None):
         p = ps[edit["pick"] % len(ps)]
         wm["nmark"] = wm.get("nmark", 0) + 1
         mk = "mk%03dq" % wm["nmark"]
-        text = render_stmt(edit.get("shape", "bare"), mk, edit.get("macro", "info"), None, structured, edit.get("words", "added"))
+        mod0, mac0 = (wm["cfg"].get("macros") or DEFAULT_MACROS)[0]
+        text = render_stmt(edit.get("shape", "bare"), mk, mac0, None, structured, edit.get("words", "added"), module=mod0)
         segs = files[p]
         segs.append(["pad", "fn added_%d(count: u32, state: &str) {\n" % wm["nmark"]])
         segs.append(["stmt", mk, text])
@@ -442,7 +477,8 @@ def dev_apply(wm, edit, root=None):
         wm["nmark"] = wm.get("nmark", 0) + 1
         mk = "mk%03dq" % wm["nmark"]
         p = "proj/src/new_%d.rs" % wm["nmark"]
-        text = render_stmt(edit.get("shape", "bare"), mk, edit.get("macro", "warn"), None, structured, "new file")
+        mod0, mac0 = (wm["cfg"].get("macros") or DEFAULT_MACROS)[-1]
+        text = render_stmt(edit.get("shape", "bare"), mk, mac0, None, structured, "new file", module=mod0)
         files[p] = [["pad", "// new file\nfn n(count: u32, state: &str) {\n"], ["stmt", mk, text], ["pad", "}\n"]]
         touched.append(p)
         desc = "added file %s with %s" % (p, mk)
